@@ -94,6 +94,8 @@ Check(e) ==
       [] e.kind = "reject" -> CheckReject(e)
       [] e.kind = "explicit" -> Fails(<< <<"C04 explicit random numbers give, event by event, what the internal generator gives for them",
                                              e.zint = e.zexp>> >>)
+      [] e.kind = "explicit_ext" -> Fails(<< <<"EXT: altDec with explicit u gives what the internal generator gives for those numbers (u <-> -ln u)",
+                                                 \A i \in 1..Len(e.zint) : FClose(e.zint[i], e.zexp[i], FDec("1e-12"), FDec("1e-12"))>> >>)
       [] e.kind = "pexit" -> CheckPexit(e)
       [] e.kind = "kin" -> CheckKin(e)
       [] e.kind = "dec" -> CheckDec(e)
